@@ -292,3 +292,69 @@ func c18MissingSizeIsAuto(c *core.Check) {
 		}
 	}
 }
+
+// c18UseWithoutHref (R21): a <use> element without href references nothing: it is a missing reference and is ignored.
+// resolveUse treats an empty fragment as "another document" and fetches the base URL — the document itself, refused
+// as recursive — or calls a nil fetcher.  The call of the fetcher is reached only when the href attribute was
+// compared with the empty string and found different.
+func c18UseWithoutHref(c *core.Check) {
+	p := c.Prog
+	r := c.Rule("R21", "a use without href is a missing reference: in svg.(*svgContext).resolveUse the call of the URL fetcher is reached only when the attribute href was compared with the empty string and found non-empty", 1)
+	fn := p.Method("svg", "svgContext", "resolveUse")
+	if fn == nil {
+		r.Anchor("svg.(*svgContext).resolveUse")
+		return
+	}
+	key := "svg.(*svgContext).resolveUse | fetch only with a href"
+	var site *ssa.BasicBlock
+	core.Instrs(fn, func(in ssa.Instruction) {
+		call, ok := in.(*ssa.Call)
+		if !ok || call.Call.IsInvoke() || call.Call.StaticCallee() != nil {
+			return
+		}
+		if ld, ok := call.Call.Value.(*ssa.UnOp); ok {
+			if fa, ok := ld.X.(*ssa.FieldAddr); ok && core.FieldName(fa) == "urlFetcher" {
+				site = call.Block()
+			}
+		}
+	})
+	if site == nil {
+		r.Skip(key, p.Pos(fn.Pos()), "resolveUse does not call the URL fetcher")
+		return
+	}
+	isHref := func(v ssa.Value) bool {
+		lk, ok := v.(*ssa.Lookup)
+		if !ok {
+			return false
+		}
+		k, ok := core.ConstStr(lk.Index)
+		return ok && k == "href"
+	}
+	var atoms []ssa.Value
+	eq := map[ssa.Value]bool{}
+	for _, a := range core.CondAtoms(fn) {
+		b, ok := a.(*ssa.BinOp)
+		if !ok || (b.Op != token.EQL && b.Op != token.NEQ) {
+			continue
+		}
+		for _, side := range [][2]ssa.Value{{b.X, b.Y}, {b.Y, b.X}} {
+			if k, ok := core.ConstStr(side[1]); ok && k == "" && isHref(side[0]) {
+				atoms = append(atoms, a)
+				eq[a] = b.Op == token.EQL
+			}
+		}
+	}
+	if len(atoms) == 0 {
+		r.Fail(key, p.Pos(fn.Pos()), "the attribute href is never compared with the empty string: a <use> without href is resolved as a reference to the document itself (refused as recursive, or a nil fetcher is called)")
+		return
+	}
+	ok, _ := core.GuardedBy(fn, site, atoms, func(m map[ssa.Value]bool) bool {
+		for a, v := range m {
+			if v != eq[a] {
+				return true
+			}
+		}
+		return false
+	})
+	r.Cond(ok, key, p.Pos(fn.Pos()), "the fetcher is called only for a non-empty href", "the fetcher is reached although href was found empty")
+}
